@@ -8,10 +8,11 @@ What is modelled, as the code is written:
   original function of some slot or a wrapper closure `wrap j k inner` created by journal `j`
   for slot `k` around whatever was installed before (`wrap_ir_classes`, 199-466, wraps
   `original_methods[...]`, i.e. the table that was current at `__enter__`);
-* `Journal.__enter__` (_journaling.py 156-161): previous := current; current := self;
-  captured := the current table; install one wrapper per slot;
-* `Journal.__exit__` (163-166): reinstall the captured table; current := previous.  It returns
-  None, so an exception raised in the block propagates;
+* `Journal.__enter__` (_journaling.py 157-170): refuse (RuntimeError, nothing changed) when this
+  journal object is already active; otherwise active := True; previous := current; current :=
+  self; captured := the current table; install one wrapper per slot;
+* `Journal.__exit__` (172-176): reinstall the captured table; current := previous; active :=
+  False.  It returns None, so an exception raised in the block propagates;
 * the four wrapper factories (_wrappers.py 32-126).  Order of effects as written:
   `_init_wrapper` calls the original FIRST and records only if it returned; its own result is
   None.  `_setter_wrapper`, `_method_wrapper`, `_container_method_wrapper` record FIRST and then
@@ -163,6 +164,8 @@ structure JState where
   previous : Option Nat := none
   /-- `_original_methods`; `none` models the empty dict of a journal that was never entered -/
   captured : Option Table := none
+  /-- `_active` -/
+  active : Bool := false
 
 /-- Ghost events: what actually executed.  `start`/`finish` are emitted by the *original*
     function bodies (not by wrappers); `enter`/`exit` mark `__enter__`/`__exit__`. -/
@@ -263,22 +266,33 @@ def dispatch {σ : Type} (cfg : Cfg σ) : Nat → Nat → Obj → Val → World 
   | f + 1, slot, self, arg, w =>
       runImpl cfg (runOrig cfg (dispatch cfg f)) (w.table slot) self arg w
 
-/-- `Journal.__enter__` (_journaling.py 156-161, _wrappers.py 199-466). -/
-def enter {σ : Type} (j : Nat) (w : World σ) : World σ :=
+/-- exception of a refused `__enter__` (RuntimeError: this Journal is already active) -/
+def enterExn : Nat := 2
+
+/-- `Journal.__enter__` after its guard (_journaling.py 166-170, _wrappers.py 199-466). -/
+def enterRaw {σ : Type} (j : Nat) (w : World σ) : World σ :=
   let js := w.journals j
   { w with
     current := some j
-    journals := upd w.journals j { js with previous := w.current, captured := some w.table }
+    journals := upd w.journals j
+      { js with active := true, previous := w.current, captured := some w.table }
     table := fun k => .wrap j k (w.table k)
     trace := w.trace ++ [.enter j] }
 
-/-- `Journal.__exit__` (_journaling.py 163-166, _wrappers.py 469-578).  With `captured = none`
-    (never entered) Python raises KeyError before changing anything; `withJ` never gets there. -/
+/-- `Journal.__enter__` (157-170): `none` = refused with RuntimeError, nothing changed. -/
+def enter {σ : Type} (j : Nat) (w : World σ) : Option (World σ) :=
+  if (w.journals j).active then none else some (enterRaw j w)
+
+/-- `Journal.__exit__` (172-176, _wrappers.py 469-578).  With `captured = none` (never entered)
+    Python raises KeyError before changing anything; `withJ` never gets there. -/
 def exit {σ : Type} (j : Nat) (w : World σ) : World σ :=
-  match (w.journals j).captured with
+  let js := w.journals j
+  match js.captured with
   | none => w
   | some t =>
-    { w with table := t, current := (w.journals j).previous, trace := w.trace ++ [.exit j] }
+    { w with table := t, current := js.previous,
+             journals := upd w.journals j { js with active := false },
+             trace := w.trace ++ [.exit j] }
 
 /-- User code around the IR operations. -/
 inductive Block (σ : Type) where
@@ -306,8 +320,11 @@ def runBlock {σ : Type} (cfg : Cfg σ) (fuel : Nat) : Block σ → World σ →
       | none => runBlock cfg fuel b r.1
       | some e => (r.1, some e)
   | .withJ j body, w =>
-      let r := runBlock cfg fuel body (enter j w)
-      (exit j r.1, r.2)
+      match enter j w with
+      | none => (w, some enterExn)   -- `__enter__` raised: the body does not run, no `__exit__`
+      | some w1 =>
+        let r := runBlock cfg fuel body w1
+        (exit j r.1, r.2)
   | .attempt body, w =>
       ((runBlock cfg fuel body w).1, none)
 
@@ -327,7 +344,8 @@ def journalsOf {σ : Type} : Block σ → List Nat
   | .withJ j body => j :: journalsOf body
   | .attempt body => journalsOf body
 
-/-- No journal object is entered again while it is already active inside the block. -/
+/-- No journal object is entered again while it is already active inside the block (such an
+    `__enter__` is refused with RuntimeError). -/
 def NoReentry {σ : Type} : Block σ → Prop
   | .skip => True
   | .op _ => True
